@@ -34,22 +34,19 @@ pub fn sx_region<B: bed_utils::bed::BEDLike>(g: &B) -> Sx {
 }
 
 /// Walks freshly made iterators in the other ways the `Iterator` API offers (a few external `next()` calls followed by
-/// internal iteration, `nth`, `skip`, `step_by`, `take` on `by_ref`, `count`, `last`, `size_hint`) and compares each with
-/// the plainly collected sequence.  Returns the name of the first walk that differs.
+/// internal iteration, `nth`, `skip`, `step_by`, `take` on `by_ref`, `count`, `last`) and compares each with
+/// the plainly collected sequence.  Returns the name of the first walk that differs.  (`size_hint` is deliberately not
+/// judged: no property speaks about it.)
 pub fn walk_check<T: PartialEq, I: Iterator<Item = T>>(mk: &dyn Fn() -> I) -> Option<&'static str> {
     let base: Vec<T> = mk().collect();
     let n = base.len();
-    let (lo, hi) = mk().size_hint();
-    if lo > n || hi.map_or(false, |h| h < n) { return Some("size_hint"); }
     if mk().count() != n { return Some("count"); }
     if mk().last().as_ref() != base.last() { return Some("last"); }
     for k in 0..4usize {
         let mut it = mk();
         let mut got: Vec<T> = Vec::new();
         for _ in 0..k { if let Some(x) = it.next() { got.push(x); } }
-        let (lo, hi) = it.size_hint();
         let rest = n.saturating_sub(k);
-        if lo > rest || hi.map_or(false, |h| h < rest) { return Some("next-then-size_hint"); }
         let got = it.fold(got, |mut v, x| { v.push(x); v });
         if got != base { return Some("next-then-fold"); }
         let mut it = mk();
